@@ -184,10 +184,13 @@ static int pctx_to_pem(EVP_PKEY_CTX *pctx, OSSL_PARAM *params,
 		ret = PEM_write_bio_PUBKEY(bio, pkey);
 
 	if (!ret) {
-		// LCOV_EXCL_START
-		ret = 0;
+		/* A key that cannot be serialised is not usable: every
+		 * backend other than OpenSSL works from the PEM, and OpenSSL
+		 * refuses to write keys it considers invalid (e.g. an EC
+		 * private value outside the group order). */
+		jwt_write_error(item, "Unable to create PEM from pkey");
+		ret = -1;
 		goto cleanup_pem;
-		// LCOV_EXCL_STOP
 	}
 
 	len = BIO_get_mem_data(bio, &src);
